@@ -23,7 +23,8 @@ EXPLANATION = (
     'emit or re-evaluate; (GRD.3) the lookup loop passes over a slot only because it is not awaited, empty or '
     'named differently; (WMC.2) the serial counter is only pre-incremented in the announce handler '
     'and a request\'s serial is assigned only from it; (WIRE.1) the unlinked slot enters through the '
-    'same handler.  strtol leniency is noted, not claimed.')
+    'same handler.  strtol leniency is noted, not claimed.'
+    ' Rounds 8-9: (WMC.6) the core\'s handlers of X and x call nothing that reaches the sender.')
 ASSUMPTIONS = ['clang 14 CFG', 'strtol/strtoul(base 16) accept exactly what %x prints plus lenient forms the daemon never emits']
 
 
